@@ -13,7 +13,7 @@ CLAIM = dict(
     text='Bounded symbolic checking of the writer every generated document funnels through: for EVERY code point the encoder output is the character itself, '
          'a predefined entity or a numeric reference that denotes the same character, and is a legal XML 1.0 construct whenever the character is an XML Char; '
          'every sequence of <= 5 start/characters/end/exit operations (symbolic choice of names, attribute sets and texts from a vocabulary that contains markup '
-         'characters) yields a document that expat accepts and that carries exactly the model tree; RLE index elements (decimal and hex) expand to the original values.',
+         'characters) yields a document that expat accepts and that carries exactly the model tree; RLE index elements (decimal, hex and float X values, incl. values a last bit or 1e-10 off the run) expand to the original values.',
     note='Trusted: z3, CrossHair, py2smt with its model of str iteration / ord / dict lookup / str.encode(ascii, xmlcharrefreplace) / f-string numeric reference; '
          'expat (oracle parser on concrete output). Outside: whole documents produced from log files by ScanHTML, LisToHtml, LASToHTML, SVGWriter/Plot (file I/O, numpy): '
          'only the shared writer and the RLE index writer are decided.',
@@ -102,6 +102,23 @@ def ob_encode():
               ['util.XmlWrite.XmlStream._encode', 'XmlStream.ENTITY_MAP'], fn=fn, replay=replay, classify=classify)
 
 
+def _classify_float_rle(m):
+    # a counterexample belongs to the known finding iff it passes the oracle that allows one unit in the last place
+    import os
+    import sys
+    sys.path.insert(0, os.path.join(os.path.dirname(os.path.dirname(os.path.abspath(__file__))), 'harness'))
+    import C18_xml as H
+    old = os.environ.get('VERIF_EXCLUDE', '')
+    os.environ['VERIF_EXCLUDE'] = 'rle_float_run_within_one_ulp'
+    try:
+        ok = H._rle_float_entries(m['n'], m['b'], m['st'], m['j2'], m['j3'], m['j4'])
+    except Exception:
+        ok = False
+    finally:
+        os.environ['VERIF_EXCLUDE'] = old
+    return 'rle_float_run_within_one_ulp' if ok else None
+
+
 def obligations(tier):
     q = tier == 'quick'
     return [
@@ -122,4 +139,8 @@ def obligations(tier):
            ['RP66V1.IndexXML.xml_rle_write', 'common.Rle.create_rle', 'util.XmlWrite.Element'], harness='C18_xml', func='rle_entries_small', timeout=170 if q else 600),
         Ob('rle_index_entries_expand', 'ch', 'integer sequences of length 1..4 over -3..3 (decimal) and ascending non-negative positions (hex)',
            ['RP66V1.IndexXML.xml_rle_write', 'common.Rle.create_rle', 'util.XmlWrite.Element'], harness='C18_xml', func='rle_entries', timeout=2400, tiers=('thorough',)),
+        Ob('rle_float_index_entries_expand', 'ch', 'float X sequences of length 2..5: 4 start values (0.1, 1000, 1.6e12, negative) x 4 strides x per-value deviation from the '
+           'extrapolated value (none, one unit in the last place, 1e-10 and 1e-7 relative, a quarter stride)',
+           ['RP66V1.IndexXML.xml_rle_write', 'common.Rle.create_rle', 'common.Rle.RLEItem.add/values', 'util.XmlWrite.Element'], harness='C18_xml', func='rle_float_entries',
+           timeout=170 if q else 600, classify=_classify_float_rle, parts=16),
     ]
